@@ -539,4 +539,68 @@ def r12_7(run):
     r5_8(run)
 
 
-RULES = [("R12.1", r12_1), ("R12.2", r12_2), ("R12.3", r12_3), ("R12.4", r12_4), ("R12.5", r12_5), ("R12.6", r12_6), ("R12.7", r12_7)]
+MEMO_DECORATORS = {"lru_cache", "cache", "cached_property", "functools.lru_cache", "functools.cache", "functools.cached_property"}
+STATE_MUTATORS = {"add", "append", "extend", "insert", "update", "setdefault", "pop", "popitem", "remove", "discard", "clear", "sort"}
+
+
+def hidden_state_sites(ix, funcs):
+    """[(function, node, what)]: state that outlives a call and is not part of the net -- a memoising decorator, or a module-level
+    mutable container (list / dict / set bound at module level) that the function changes"""
+    out = []
+    mutable = {}
+    for f in funcs:
+        if f.module not in mutable:
+            mi = ix.module(f.module) if ix.has_module(f.module) else None
+            names = set()
+            if mi is not None:
+                for nm, v in mi.assigns.items():
+                    if isinstance(v, (ast.List, ast.Dict, ast.Set, ast.ListComp, ast.DictComp, ast.SetComp)) or (
+                            isinstance(v, ast.Call) and U(v.func) in ("set", "dict", "list", "defaultdict", "collections.defaultdict", "OrderedDict")):
+                        names.add(nm)
+            mutable[f.module] = names
+        for d in f.raw_node.decorator_list:
+            dn = U(d.func) if isinstance(d, ast.Call) else U(d)
+            if dn in MEMO_DECORATORS or dn.rsplit(".", 1)[-1] in ("lru_cache", "cache", "cached_property"):
+                out.append((f, d, "results are memoised (@%s): a later call does not see changed inputs" % dn))
+        local = {n.id for n in ast.walk(f.raw_node) if isinstance(n, ast.Name) and isinstance(n.ctx, ast.Store)}
+        local |= {a.arg for n in ast.walk(f.raw_node) if isinstance(n, ast.arguments) for a in n.posonlyargs + n.args + n.kwonlyargs}
+        glob = {nm for n in ast.walk(f.raw_node) if isinstance(n, ast.Global) for nm in n.names}
+        names = (mutable[f.module] - (local - glob)) | glob
+        for n in ast.walk(f.raw_node):
+            if isinstance(n, ast.Call) and isinstance(n.func, ast.Attribute) and n.func.attr in STATE_MUTATORS \
+                    and isinstance(n.func.value, ast.Name) and n.func.value.id in names:
+                out.append((f, n, "module-level %s is changed (.%s)" % (n.func.value.id, n.func.attr)))
+            elif isinstance(n, (ast.Assign, ast.AugAssign, ast.Delete)):
+                tg = n.targets if isinstance(n, (ast.Assign, ast.Delete)) else [n.target]
+                for t in tg:
+                    if isinstance(t, ast.Subscript) and isinstance(t.value, ast.Name) and t.value.id in names:
+                        out.append((f, n, "module-level %s is changed (item store)" % t.value.id))
+                    elif isinstance(t, ast.Name) and t.id in glob:
+                        out.append((f, n, "module-level %s is rebound (global)" % t.id))
+    return out
+
+
+def r12_8(run):
+    """no hidden state: what a calculation returns depends on the net and the options, not on what was calculated before.  No
+    function reachable from pipeflow, and no method of the fluid / fluid-property / std-type classes (which the solver calls
+    through the objects stored in the net), memoises its results or changes a module-level container."""
+    ix = run.index
+    cg = CallGraph(ix)
+    funcs = dict(cg.reachable([ix.func(P + ".pipeflow")]))
+    for modname in ("pandapipes.properties.fluids", "pandapipes.std_types.std_type_class", "pandapipes.properties.properties_toolbox"):
+        mi = ix.module(modname)
+        for f in mi.functions.values():
+            funcs[f.qualname] = f
+        for ci in mi.classes.values():
+            for m in ci.methods.values():
+                funcs[m.qualname] = m
+    sites = hidden_state_sites(ix, list(funcs.values()))
+    for f, n, what in sites:
+        run.analysed(f)
+        run.ob("%s|hidden-state|%s" % (f.short, what.split(" (")[0][:50]), False, "no state outside the net survives a calculation: " + what, run.where(f, n))
+    run.ob("hidden-state|functions-scanned", len(funcs) >= 150 and not sites,
+           "%d functions (reachable from pipeflow, fluid and std-type classes) keep no state between calls" % len(funcs), P)
+    run.floor(1)
+
+
+RULES = [("R12.1", r12_1), ("R12.2", r12_2), ("R12.3", r12_3), ("R12.4", r12_4), ("R12.5", r12_5), ("R12.6", r12_6), ("R12.7", r12_7), ("R12.8", r12_8)]
